@@ -183,6 +183,8 @@ impl Case {
 #[derive(Clone, Debug)]
 enum Tr {
     Pass,
+    /// hook: the engine's agenda manager made this group the focused one (inside a run)
+    Focus(String),
     Fire(String, Result<Store, String>),
 }
 
@@ -203,6 +205,7 @@ struct Obs {
     exec_calls: u64,
     blocked_disabled: u64,
     focus_changes_by_action: u64,
+    focus_events: u64,
     hook_missing: bool,
     exec_err: u64,
     slow_calls: u64,
@@ -494,11 +497,14 @@ fn judge(case: &Case) -> (Verdict, Obs) {
         let step_bound = case.max_cycles + 1;
         let fire_bound = case.max_cycles * n.max(1) + 1;
         verif_hooks::set_event_observer(Some(Box::new(move |ev| {
-            let Event::ForwardPass { .. } = ev;
+            if let Event::AgendaFocus { group } = ev {
+                TRACE.with(|tr| tr.borrow_mut().push(Tr::Focus(group.clone())));
+                return;
+            }
             let (p, f) = TRACE.with(|tr| {
                 let mut tr = tr.borrow_mut();
                 tr.push(Tr::Pass);
-                (tr.iter().filter(|e| matches!(e, Tr::Pass)).count(), tr.len())
+                (tr.iter().filter(|e| matches!(e, Tr::Pass)).count(), tr.iter().filter(|e| !matches!(e, Tr::Focus(_))).count())
             });
             if p > step_bound || f > step_bound + fire_bound + 2 {
                 std::panic::panic_any(StepBound);
@@ -552,9 +558,23 @@ fn judge(case: &Case) -> (Verdict, Obs) {
         let mut pass_start_state = current.clone();
         let mut pass_start_focus = focus.clone();
         let mut pending_focus: Option<String> = None;
+        // the engine's own focus as its agenda manager reports it through the hook: `eng_focus` is
+        // the latest value seen in this run, `focus_window` every value the focus held since the
+        // previous firing or pass head (a rule passed its gate somewhere in that stretch; its own
+        // ActivateAgendaGroup actions run before its Trace action reports the firing)
+        let mut eng_focus: Option<String> = None;
+        let mut focus_window: BTreeSet<String> = focus.clone();
         for ev in &trace {
             match ev {
+                Tr::Focus(g) => {
+                    obs.focus_events += 1;
+                    eng_focus = Some(g.clone());
+                    focus_window.insert(g.clone());
+                }
                 Tr::Pass => {
+                    if let Some(e) = &eng_focus {
+                        focus_window = [e.clone()].into_iter().collect();
+                    }
                     obs.passes += 1;
                     last_rank = -1;
                     last_salience = None;
@@ -616,6 +636,22 @@ fn judge(case: &Case) -> (Verdict, Obs) {
                     }
                     if r.effective.is_some() || r.expires.is_some() {
                         obs.dated_firings += 1;
+                    }
+                    if eng_focus.is_some() && !focus_window.contains(&g) {
+                        return (
+                            Some((
+                                "fired-outside-focused-group",
+                                "engine-focus-had-moved-on-within-the-pass".into(),
+                                format!(
+                                    "call #{}: rule {} of agenda group {:?} fired although the engine's agenda manager had moved the focus to {:?} before the previous firing ended (focus values since then: {:?})",
+                                    ci, name, g, eng_focus, focus_window
+                                ),
+                            )),
+                            obs,
+                        );
+                    }
+                    if let Some(e) = &eng_focus {
+                        focus_window = [e.clone()].into_iter().collect();
                     }
                     if !focus.contains(&g) {
                         let cause = if activated_by_queueing_api.contains(&g) {
@@ -842,6 +878,7 @@ fn record(case: &Case, st: &mut Stats) {
     st.add("execute_calls_that_ended_on_the_timeout_error", obs.timeout_errs);
     st.add("equal_salience_successive_firings", obs.tie_pairs_seen);
     st.add("focus_changes_by_ActivateAgendaGroup_action", obs.focus_changes_by_action);
+    st.add("agenda_focus_events_seen_inside_runs_through_the_hook", obs.focus_events);
     st.add("lock_on_active_firings", obs.loa_firings);
     st.add("no_loop_firings", obs.noloop_firings);
     st.add("activation_group_firings", obs.actgroup_firings);
@@ -1069,7 +1106,7 @@ impl Check for C02 {
     fn assumptions(&self) -> Vec<String> {
         vec![
             "attributes are set on the parsed Rule objects (not through GRL attribute syntax) so that the check is independent of C04's parser findings".into(),
-            "the focused group at a call boundary is what get_active_agenda_group() reports; inside a run an ActivateAgendaGroup action may take effect immediately or at the next pass (both accepted)".into(),
+            "the focused group at a call boundary is what get_active_agenda_group() reports; inside a run an ActivateAgendaGroup action may take effect immediately or at the next pass (both accepted), but the moment is the engine's own: hook events from AgendaManager::set_focus / pop_focus / clear_focus give the focus the engine holds, and a rule may only fire if its group held the focus at some moment since the previous firing or pass head".into(),
             "focus stack as documented on the API (set/activate moves the group to the top, pop returns to the group below but never below MAIN, clear leaves MAIN): after pop and after every completed execute the reported active group must be the top of that stack".into(),
             "date windows: firing strictly before `effective` or strictly after `expires` is a violation; exactly at `expires` is not judged".into(),
             "lock-on-active: an activation of a group is one set_agenda_focus / activate_agenda_group / execute_workflow_step call or one executed ActivateAgendaGroup action naming it (DESIGN O5); focus returning to a group through pop/clear is not an activation".into(),
